@@ -227,28 +227,11 @@ CommittedAt(ops, i) ==
     IF i = 0 THEN 0
     ELSE IF ops[i].k = "f" THEN Max2(ops[i].n, CommittedAt(ops, i - 1)) ELSE CommittedAt(ops, i - 1)
 
-\* what a reader sees on the persisted pair (shpB, shxB or NoIndex): [openErr, items, err]
-ReadPersisted(shpB, useIndex, shxB) ==
-    LET o == OpenShp(shpB)
-        x == IF useIndex THEN OpenShx(shxB) ELSE [ok |-> TRUE, err |-> "", entries |-> << >>]
-    IN  IF ~x.ok THEN [openErr |-> x.err, items |-> << >>, err |-> ""]
-        ELSE IF ~o.ok THEN [openErr |-> o.err, items |-> << >>, err |-> ""]
-        ELSE LET r == IF useIndex THEN IdxIter(shpB, x.entries, 1, -1, << >>)
-                      ELSE IF DeclaredBytes(shpB) < 0 THEN [items |-> << >>, err |-> "nonconformant", code |-> 0]
-                      ELSE SeqIter(shpB, 100, DeclaredBytes(shpB), -1, << >>)
-             IN  [openErr |-> "", items |-> r.items, err |-> r.err]
-
-\* the relation C11 states between what was written and what a reader returns
-\* (items = shapes returned before the first error)
-ItemsArePrefix(items, W) ==
-    /\ Len(items) <= Len(W)
-    /\ \A i \in 1..Len(items) : ReadBackRel(W[i], items[i].shape, FALSE)
-
 CrashSafeAt(i, c, j, d) ==
     LET sb  == CutBytes(shpOps, i, c)
         xb  == CutBytes(shxOps, j, d)
-        r0  == ReadPersisted(sb, FALSE, << >>)
-        r1  == ReadPersisted(sb, TRUE, xb)
+        r0  == ReadFile(sb, FALSE, << >>)
+        r1  == ReadFile(sb, TRUE, xb)
     IN  /\ ItemsArePrefix(r0.items, written)
         /\ Len(r0.items) >= CommittedAt(shpOps, i)
         /\ hasShx => ItemsArePrefix(r1.items, written)
